@@ -211,6 +211,7 @@ def t_ellipe():
         RG('incomplete/|phi|<=pi/2,m-in-(0,1)', A(phi_in, m_01), weight=2),
         RG('incomplete/|phi|>pi/2,m-in-(0,1)', A(phi_out, m_01)),
         RG('incomplete/phi-large', A(phi_large, m_01)),
+        RG('incomplete/phi-huge', A(real_in(14, 60), m_01)),
         RG('incomplete/m-neg', A(one_of(phi_in, phi_out), m_neg)),
         RG('incomplete/m>1', A(phi_in, m_gt1)),
         RG('incomplete/phi-tiny', A(real_in(-120, -8), m_01)),
@@ -225,6 +226,7 @@ def t_ellipf():
         RG('|phi|<=pi/2,m-in-(0,1)', A(phi_in, m_01), weight=2),
         RG('|phi|>pi/2,m-in-(0,1)', A(phi_out, m_01)),
         RG('phi-large', A(phi_large, m_01)),
+        RG('phi-huge', A(real_in(14, 60), m_01)),
         RG('m-neg', A(one_of(phi_in, phi_out), m_neg)),
         RG('m>1', A(phi_in, m_gt1)),
         RG('m=1', A(phi_in, choice(1))),
@@ -812,7 +814,10 @@ TABLE = {
 
 
 def shards(tier, seed):
-    return [{'n': CASES[tier], 'nshards': NSHARDS, 'budget_s': BUDGET[tier]} for _ in range(NSHARDS)]
+    # VERIF_BUDGET_SCALE (default 1) scales the per-shard CPU budget; used only to self-validate on a shared, loaded machine
+    import os
+    scale = float(os.environ.get('VERIF_BUDGET_SCALE', '1') or 1)
+    return [{'n': CASES[tier], 'nshards': NSHARDS, 'budget_s': BUDGET[tier] * scale} for _ in range(NSHARDS)]
 
 
 def run_shard(shard, rec):
